@@ -330,6 +330,59 @@ Proof.
   destruct (existsb (str_eqb [45; 45]) argv); [reflexivity|]. rewrite Hc. apply ap_scan_toggle. exact Ht.
 Qed.
 
+(* reading a command line is compositional: two lines that are read completely, one after the other *)
+Lemma ap_scan_app : forall p n c1 c2 o1 o2, (List.length c1 <= n)%nat ->
+  ap_scan p c1 = Some o1 -> ap_scan p c2 = Some o2 -> ap_scan p (c1 ++ c2)%list = Some (o1 ++ o2)%list.
+Proof.
+  induction n as [|n IH]; intros c1 c2 o1 o2 Hn H1 H2.
+  - destruct c1; [|simpl in Hn; inversion Hn]. simpl in H1. inversion H1; subst. exact H2.
+  - destruct c1 as [|[t c] r]; [simpl in H1; inversion H1; subst; exact H2|].
+    simpl in H1. simpl. destruct c as [|o f ex| |]; try discriminate.
+    destruct (start_opt p o f ex) as [[l pend]|]; [|discriminate].
+    destruct pend as [o'|].
+    + destruct r as [|[v c'] r']; [discriminate|]. destruct c'; try discriminate. simpl.
+      destruct (ap_scan p r') as [occs'|] eqn:R; [|discriminate]. simpl in H1. inversion H1; subst.
+      rewrite (IH r' c2 occs' o2); auto; [simpl; rewrite app_assoc; reflexivity|simpl in Hn; lia].
+    + destruct (ap_scan p r) as [occs'|] eqn:R; [|discriminate]. simpl in H1. inversion H1; subst.
+      rewrite (IH r c2 occs' o2); auto; [simpl; rewrite app_assoc; reflexivity|simpl in Hn; lia].
+Qed.
+
+Lemma ap_occs_app : forall p a b oa ob, ap_occs p a = Some oa -> ap_occs p b = Some ob ->
+  ap_occs p (a ++ b)%list = Some (oa ++ ob)%list.
+Proof.
+  intros p a b oa ob. unfold ap_occs. rewrite existsb_app, map_app.
+  destruct (existsb (str_eqb [45; 45]) a); [discriminate|]. destruct (existsb (str_eqb [45; 45]) b); [discriminate|].
+  simpl. intros H1 H2. eapply ap_scan_app; eauto.
+Qed.
+
+(* a toggle typed twice is read as two occurrences of the same option, typed once as one: every
+   toggle of the command line has the same value both times *)
+Theorem toggle_twice_is_once : forall p t o f a b c oa ob oc,
+  classify p t = TOpt o f None -> takes_arg o = false -> str_eqb [45; 45] t = false ->
+  ap_occs p a = Some oa -> ap_occs p b = Some ob -> ap_occs p c = Some oc ->
+  exists twice once,
+    ap_occs p (a ++ t :: b ++ t :: c)%list = Some twice /\ ap_occs p (a ++ t :: b ++ c)%list = Some once /\
+    forall d, existsb (occ_dest_is d) twice = existsb (occ_dest_is d) once.
+Proof.
+  intros p t o f a b c oa ob oc Hc Ht Hd Ha Hb Hcc.
+  assert (T1 : forall l ol, ap_occs p l = Some ol -> ap_occs p (t :: l) = Some ((o, None) :: ol)).
+  { intros l ol Hl. rewrite (ap_occs_toggle p t o f l Hc Ht Hd), Hl. reflexivity. }
+  exists (oa ++ (o, None) :: ob ++ (o, None) :: oc)%list, (oa ++ (o, None) :: ob ++ oc)%list. split; [|split].
+  - apply ap_occs_app; auto. apply T1. apply ap_occs_app; auto.
+  - apply ap_occs_app; auto. apply T1. apply ap_occs_app; auto.
+  - intros d. rewrite !existsb_app. simpl. rewrite !existsb_app. simpl.
+    destruct (existsb (occ_dest_is d) oa), (occ_dest_is d (o, None)), (existsb (occ_dest_is d) ob), (existsb (occ_dest_is d) oc); reflexivity.
+Qed.
+
+Example toggle_example :
+  m_options int_ascii (map lit ["--skip_brute"; "-r"; "X"; "--skip_brute"; "--all_lower"]%string) =
+  m_options int_ascii (map lit ["-r"; "X"; "--all_lower"; "--skip_brute"]%string) /\
+  option_map o_skip_brute (m_options int_ascii (map lit ["--skip_brute"; "--skip_brute"]%string)) = Some true /\
+  option_map o_skip_brute (m_options int_ascii (map lit ["--all_lower"]%string)) = Some false /\
+  m_options int_ascii (map lit ["--skip_brute=1"]%string) = None /\
+  classify guesser_parser (lit "--skip_brute") = TOpt o_skip_brute_opt (lit "--skip_brute") None.
+Proof. vm_compute. repeat split. Qed.
+
 (* the limit test of parse_command_line: refused exactly for a negative limit *)
 Theorem m_parse_refuses : forall int_of argv b o, m_parse int_of argv = Some (b, o) ->
   (b = false <-> exists z, o_limit o = Some z /\ (z < 0)%Z).
